@@ -1,9 +1,11 @@
 #!/venv/bin/python
-"""alpha_tree.py <dir>: write an alpha-renamed copy of /repo's package to <dir>/unified_planning (development aid)."""
+"""alpha_tree.py <dir> [noops]: write a rewritten copy of /repo's package to <dir>/unified_planning (development aid):
+renamed + annotated locals; with `noops` additionally a `pass` after every statement."""
 import os, shutil, sys
 sys.path.insert(0, os.path.dirname(os.path.dirname(os.path.abspath(__file__))))
-from upsa.alpha import alpha_rename
+from upsa.alpha import alpha_rename, interleave_noops
 dst = sys.argv[1]
+noops = len(sys.argv) > 2
 shutil.rmtree(dst, ignore_errors=True)
 shutil.copytree("/repo/unified_planning", os.path.join(dst, "unified_planning"), ignore=shutil.ignore_patterns("__pycache__", "test"))
 for root, _d, files in os.walk(os.path.join(dst, "unified_planning")):
@@ -14,4 +16,7 @@ for root, _d, files in os.walk(os.path.join(dst, "unified_planning")):
             p = os.path.join(root, f)
             s = open(p).read()
             t, _ = alpha_rename(s)
+            if noops:
+                t = interleave_noops(t)
+            compile(t, p, "exec")
             open(p, "w").write(t)
